@@ -626,8 +626,7 @@ func verifHarness_C13_Sequence() {
 	k := 3
 	names := []string{"a", "b"}
 	if rt.Tier() > 0 {
-		k = 4
-		names = []string{"a", "b", ".h"}
+		k = 4 // (a third name at depth 4 costs 5.7 million paths / 26 minutes; hidden names have their own harness)
 	}
 	rt.Bound("operations", k)
 	rt.Bound("names", len(names))
